@@ -141,6 +141,16 @@ def generate(rng, tier) -> dict:
     if rng.random() < 0.2:
         sc["faults"].append({"kind": rng.choice(["R1", "R2", "W3"]), "op": rng.randrange(2), "call": rng.choice([0, 1, 2, 3, 5]), "arg": rng.randint(0, 20)})
     sc["refused_first"] = rng.choice([None, None, None, "clean_rfi", "compute_stats", "compute_stats_basic"])
+    if rng.random() < (0.004 if tier == "quick" else 0.012):
+        # one block of more than 2^22 samples x channels, a channel count that no thread count divides, masked channels at
+        # both ends of the band, more than one numba thread: block-size dependent paths of the cleaning loop
+        nch = rng.choice([1009, 1021, 1031])
+        n = rng.randint(4200, 5000)
+        spec.update({"nbits": 8, "nchans": nch, "nsamps": [n], "pad": [0], "mode": "small", "big": True})
+        cen = [band[0] + c * band[1] for c in range(nch)]
+        sc.update({"start": 0, "nsamps": None, "ranges": [sorted([cen[nch - 1] - 0.2 * abs(band[1]), cen[nch - 3] + 0.2 * abs(band[1])]), [cen[0] - 0.2 * abs(band[1]), cen[0] + 0.2 * abs(band[1])]],
+                   "ops": [{"gulp": rng.choice([16384, n, n + 7])}, {"gulp": rng.choice([1000, 333])}], "faults": [], "mask_value": rng.choice([0, 3]),
+                   "fn": None, "refused_first": None, "seqform": "list", "numba_threads": rng.choice([3, 4]), "huge": True})
     return sc
 
 
